@@ -99,7 +99,10 @@ META = {
         "system_message descendants found below X (findall/traverse of the subtree, not only direct children) - or every caller "
         "does so on the returned container, or by a call of a sweeping helper (`for E in findall(p)(C): for m in findall(E)(system_message): "
         "m.parent.remove(m)`, both walks subtree walks) that is given X, or an ancestor X is attached under in that function, together "
-        "with X's class; branches on one once-assigned flag are taken consistently when paths are enumerated; and run_directive clears the captions AND titles below the nodes a directive returns. "
+        "with X's class; branches on one once-assigned flag are taken consistently when paths are enumerated; when X is built in a helper "
+        "that attaches it to the caller's current node and discharges only some cases of a flag it receives as a parameter, every "
+        "caller must sweep the node that was current at the call (or an ancestor) in the remaining cases, with the flag translated "
+        "through the call's arguments; and run_directive clears the captions AND titles below the nodes a directive returns. "
         "Keys name the module and the kind of element, not the function, so that moving the code into a helper keeps the key."
     ),
     "not_decided": (
@@ -3365,9 +3368,11 @@ def _attached_under(fi: FunctionInfo) -> dict[str, set[str]]:
     return up
 
 
-def _dischargers_cover_all_paths(fi: FunctionInfo, start: ast.stmt, dischargers: list[ast.AST]) -> bool:
-    """Every feasible path from ``start`` to the function's exit runs one of the dischargers.  Branches on one and the same
-    once-assigned flag (``if make_terms:`` ... ``if not make_terms:``) are taken consistently."""
+def _uncovered_cases(fi: FunctionInfo, start: ast.stmt, dischargers: list[ast.AST], fixed: dict[str, bool] | None = None) -> list[dict[str, bool]]:
+    """The cases in which some path from ``start`` to the function's exit runs none of the dischargers.  A case is a
+    valuation of the flags the function branches on (a whole-condition name that is a parameter or assigned once:
+    ``if make_terms:`` ... ``if not make_terms:`` are taken consistently); ``fixed`` pins flags (a caller's knowledge).
+    [] = every feasible path is covered; [{}] = uncovered whatever the flags."""
     cfg = get_cfg(fi)
     dset = set()
     for d in dischargers:
@@ -3375,27 +3380,70 @@ def _dischargers_cover_all_paths(fi: FunctionInfo, start: ast.stmt, dischargers:
             dset.add(cfg.stmt_of(d))
         except Exception:
             pass
-    if not dset:
-        return False
     flags: dict[str, list[tuple[ast.If, bool]]] = {}
     for n in fi.local_nodes():
         if isinstance(n, ast.If):
             core, neg = _strip_not(n.test)
             if isinstance(core, ast.Name):
                 stores = [s for s in fi.local_nodes() if isinstance(s, ast.Name) and s.id == core.id and isinstance(s.ctx, ast.Store)]
-                if len(stores) <= 1 and core.id not in ():
+                if len(stores) <= 1:
                     flags.setdefault(core.id, []).append((n, not neg))
-    names = [k for k, v in flags.items() if len(v) > 1][:3]
-    for bits in range(1 << len(names)):
+    fixed = {k: v for k, v in (fixed or {}).items() if k in flags}
+    free = [k for k in flags if k not in fixed][:3]
+    out: list[dict[str, bool]] = []
+    for bits in range(1 << len(free)):
+        val = dict(fixed)
+        val.update({nm: bool(bits >> i & 1) for i, nm in enumerate(free)})
         blocked = set()
-        for i, nm in enumerate(names):
-            val = bool(bits >> i & 1)
+        for nm, v in val.items():
             for ifst, positive in flags[nm]:
-                holds = val if positive else not val
+                holds = v if positive else not v
                 blocked.add(("F" if holds else "T", ifst))
         if cfg.paths_avoiding(start, "EXIT", lambda x: x in dset or x in blocked):
-            return False
-    return True
+            out.append({nm: val[nm] for nm in free})
+    # flags that do not matter (uncovered for both values) are dropped from the description
+    for nm in free:
+        if all(any(o != c and {k: v for k, v in o.items() if k != nm} == {k: v for k, v in c.items() if k != nm} for o in out) for c in out) and out:
+            out = [dict(s) for s in {tuple(sorted((k, v) for k, v in c.items() if k != nm)) for c in out}]
+    return out
+
+
+def _dischargers_cover_all_paths(fi: FunctionInfo, start: ast.stmt, dischargers: list[ast.AST]) -> bool:
+    return bool(dischargers) and not _uncovered_cases(fi, start, dischargers)
+
+
+def _sweeps_in(corpus: Corpus, fi: FunctionInfo, cls: str | None, names: set[str], after_line: int = 0) -> list[ast.Call]:
+    """Calls in ``fi`` of a sweeping helper for elements of class ``cls`` that are given one of ``names``."""
+    out = []
+    for c in fi.local_nodes():
+        if not isinstance(c, ast.Call) or c.lineno < after_line:
+            continue
+        try:
+            hs = _resolver_of(corpus)(c, fi)
+        except Exception:
+            hs = []
+        if len(hs) != 1:
+            continue
+        summ = _sweeper_summary(hs[0])
+        bound = _bind_call(c, hs[0]) if summ is not None else None
+        if not bound or summ[0] not in bound:
+            continue
+        hparams = [p for p in hs[0].params if p not in ("self", "cls")]
+        swept = summ[1] if isinstance(summ[1], str) else (dotted(bound.get(hparams[summ[1]])) or "").split(".")[-1]
+        given = bound[summ[0]]
+        if swept == cls and isinstance(given, ast.Name) and given.id in names:
+            out.append(c)
+    return out
+
+
+def _current_node_at(n: ast.AST) -> str | None:
+    for a in ancestors(n):
+        if isinstance(a, ast.With):
+            for item in a.items:
+                c = item.context_expr
+                if isinstance(c, ast.Call) and isinstance(c.func, ast.Attribute) and c.func.attr == "current_node_context" and c.args and isinstance(c.args[0], ast.Name):
+                    return c.args[0].id
+    return None
 
 
 def _class_of_ctor(ctor: ast.Call | None) -> str | None:
@@ -3434,30 +3482,50 @@ def r9_collector_read_elements(corpus: Corpus, rep: Report, tier: str):
             site = fi.module.site(w)
             loops = _removal_loops(fi, name)
             # a sweeping helper that is handed the element, or an ancestor it is attached under, together with its class
-            sweeps = []
             up = _attached_under(fi)
-            for c in fi.local_nodes():
-                if not isinstance(c, ast.Call) or c.lineno < w.lineno:
-                    continue
-                try:
-                    hs = _resolver_of(corpus)(c, fi)
-                except Exception:
-                    hs = []
-                if len(hs) != 1:
-                    continue
-                summ = _sweeper_summary(hs[0])
-                bound = _bind_call(c, hs[0]) if summ is not None else None
-                if not bound or summ[0] not in bound:
-                    continue
-                hparams = [p for p in hs[0].params if p not in ("self", "cls")]
-                swept = summ[1] if isinstance(summ[1], str) else (dotted(bound.get(hparams[summ[1]])) or "").split(".")[-1]
-                given = bound[summ[0]]
-                if swept == cls and isinstance(given, ast.Name) and (given.id == name or given.id in up.get(name, set())):
-                    sweeps.append(c)
+            sweeps = _sweeps_in(corpus, fi, cls, {name} | up.get(name, set()), w.lineno)
             # every (feasible) path from the rendering to the end of the function takes the messages out
-            if _dischargers_cover_all_paths(fi, w, list(loops) + sweeps):
+            open_cases = _uncovered_cases(fi, w, list(loops) + sweeps) if (loops or sweeps) else [{}]
+            if not open_cases:
                 rep.ok(R, k, site, "the message nodes are taken out of it after the rendering, on every path" + (f" (by {len(sweeps)} call(s) of a sweeping helper)" if sweeps else ""))
                 continue
+            # the element was built in a helper and attached to the caller's current node: the caller may sweep the
+            # remaining cases (the flag is handed down as an argument) after the call, below the node that was current
+            cs0 = [(cf, cl) for cf, cl in callers.get(fi.fq, []) if not cf.is_lambda]
+            if cs0 and "\0current node" in up.get(name, set()) and all(set(c) <= set(fi.params) for c in open_cases):
+                done = True
+                for cfi, call in cs0:
+                    bound = _bind_call(call, fi)
+                    cur = _current_node_at(call)
+                    if bound is None or cur is None:
+                        done = False
+                        break
+                    cup = _attached_under(cfi)
+                    csweeps = _sweeps_in(corpus, cfi, cls, {cur} | cup.get(cur, set())) + list(_removal_loops(cfi, cur))
+                    try:
+                        cstart = get_cfg(cfi).stmt_of(call)
+                    except Exception:
+                        done = False
+                        break
+                    for case in open_cases:
+                        fixed = {}
+                        for p_, v_ in case.items():
+                            a_ = bound.get(p_)
+                            if isinstance(a_, ast.Name):
+                                fixed[a_.id] = v_
+                            elif isinstance(a_, ast.Constant) and bool(a_.value) != v_:
+                                fixed = None  # this call never runs the helper in that case
+                                break
+                        if fixed is None:
+                            continue
+                        if not csweeps or _uncovered_cases(cfi, cstart, csweeps, fixed):
+                            done = False
+                            break
+                    if not done:
+                        break
+                if done:
+                    rep.ok(R, k, site, f"taken out in {fi.name} in part; in the remaining case(s) {open_cases} every caller ({len(cs0)}) sweeps the node it was attached under after the call")
+                    continue
             # or the function hands a container on and every caller takes them out of that
             rets = [r for r in fi.local_nodes() if isinstance(r, ast.Return) and isinstance(r.value, ast.Name)]
             cs = callers.get(fi.fq, [])
